@@ -228,7 +228,13 @@ def correspond(ctx):
         if abs(pc) > 1e-9 * (1 + abs(gap)) and abs(dc) > 1e-9 * (1 + abs(gap)) and desc['dims']['l'] + len(desc['dims']['q']) + len(desc['dims']['s']) > 0:
             want = gap / (-pc) if pc < 0 else (gap / dc if dc > 0 else None)
             got = r.get('relative gap')
-            if (want is None) != (got is None) or (want is not None and not close(got, want, 1e-4, 1e-12)): bad.append(('relative gap', got, want))
+            # the relative gap inherits the rounding of the objective it is divided by (allowances as for the objective fields above)
+            den_allow = ((orel * abs(pc) + 1e-9 + oslack) / abs(pc)) if pc < 0 else ((10 * orel * abs(dc) + 1e-8 + oslack) / abs(dc) if dc > 0 else 0.0)
+            # ... and the rounding of the floating-point sum <s, z> (terms of both signs in 'q' and 's' blocks): about N u sum |s_i z_i|
+            sv, zv = mlist(r['s']), mlist(r['z'])
+            gap_round = 8e-16 * (len(sv) + 1) * 2 * sum(abs(a) * abs(b_) for a, b_ in zip(sv, zv))
+            den = abs(pc) if pc < 0 else abs(dc)
+            if (want is None) != (got is None) or (want is not None and not close(got, want, 1e-4 + 2 * den_allow, 1e-12 + gap_round / den)): bad.append(('relative gap', got, want))
         if not close(r['primal infeasibility'], pres, 1e-3, 1e-11 + fslack): bad.append(('primal infeasibility', r['primal infeasibility'], pres))
         if not close(r['dual infeasibility'], dres, 1e-3, 1e-11 + fslack): bad.append(('dual infeasibility', r['dual infeasibility'], dres))
         if bad:
